@@ -940,6 +940,7 @@ func PickBestI16Mode(srcBuf []byte, srcOff int, predBuf []byte, predOff int, seg
 		rate := modeFixedCost16[mode]
 
 		score := RDScore(disto, rate, seg.LambdaI16)
+		score = verifhook.Score("i16", mode, score)
 		if score < bestScore {
 			bestScore = score
 			bestMode = uint8(mode)
@@ -985,6 +986,7 @@ func PickBestI4Mode(srcBuf []byte, srcOff int, predBuf []byte, predOff int, seg 
 		rate := int(VP8FixedCostsI4[topMode][leftMode][mode])
 
 		score := RDScore(disto, rate, seg.LambdaI4)
+		score = verifhook.Score("i4", mode, score)
 		if score < bestScore {
 			bestScore = score
 			bestMode = uint8(mode)
@@ -1059,6 +1061,7 @@ func PickBestUVMode(srcBuf []byte, srcOff int, predBuf []byte, predOff int, seg 
 		rate := modeFixedCostUV[mode]
 
 		score := RDScore(disto, rate, seg.LambdaUV)
+		score = verifhook.Score("uv", mode, score)
 		if score < bestScore {
 			bestScore = score
 			bestMode = uint8(mode)
@@ -1201,6 +1204,7 @@ func (enc *VP8Encoder) PickBestI16ModeRD(it *MBIterator, seg *SegmentInfo) (best
 
 		// Use LambdaI16 for choosing which I16 sub-mode is best.
 		score := RDScore(disto, totalRate, seg.LambdaI16)
+		score = verifhook.Score("i16", mode, score)
 		if score < bestScore {
 			bestScore = score
 			bestMode = uint8(mode)
@@ -1267,6 +1271,7 @@ func (enc *VP8Encoder) PickBestI4ModeRD(srcBuf []byte, srcOff int, predBuf []byt
 		rate += int(VP8FixedCostsI4[topMode][leftMode][mode])
 
 		score := RDScore(disto, rate, seg.LambdaI4)
+		score = verifhook.Score("i4", mode, score)
 		if score < bestScore {
 			bestScore = score
 			bestMode = uint8(mode)
@@ -1362,6 +1367,7 @@ func (enc *VP8Encoder) PickBestI4ModeRDTrellis(srcBuf []byte, srcOff int, predBu
 		rate += int(VP8FixedCostsI4[topMode][leftMode][mode])
 
 		score := RDScore(disto, rate, seg.LambdaI4)
+		score = verifhook.Score("i4", mode, score)
 		if score < bestScore {
 			bestScore = score
 			bestMode = uint8(mode)
@@ -1466,6 +1472,7 @@ func (enc *VP8Encoder) PickBestUVModeRD(it *MBIterator, seg *SegmentInfo) (bestM
 
 		disto := distoU + distoV
 		score := RDScore(disto, totalRate, seg.LambdaUV)
+		score = verifhook.Score("uv", mode, score)
 		if score < bestScore {
 			bestScore = score
 			bestMode = uint8(mode)
